@@ -32,7 +32,7 @@ func TestMain(m *testing.M) { h.Main(m, "C08") }
 type Case struct {
 	Libs    []gen.Lib         `json:"libs"`
 	Root    map[string]string `json:"root"`
-	DecRes  int               `json:"dec_resolver"` // 0 gotypes, 1 goast.WithResolver(accurate)
+	DecRes  int               `json:"dec_resolver"`  // 0 gotypes, 1 goast.WithResolver(accurate)
 	RestRes int               `json:"rest_resolver"` // 0 simple(accurate), 1 guess.WithMap(accurate)
 }
 
